@@ -1,5 +1,6 @@
 SPECIFICATION Spec
 CONSTANTS
+  FaultUniverse = "all"
   Rels = {"r1", "r2", "r3"}
   Rollback = "snapshot"
 INVARIANTS TypeOK AllOrNothing NoSilentOrphan RelationshipRefsKept Emit
